@@ -259,20 +259,24 @@ def classify {F} (ops : FloatOps F) (lookup : Int → RefLookup) (k : Kind) (t :
   | .integer =>
     if isInteger t then
       let v := denoteInteger t
-      if IStream.longMin ≤ v && v ≤ IStream.longMax then .grammar (.int v) else .reject
+      -- LONG_MAX is reserved by the implementation as the in-band "unset": not representable, to be reported
+      if IStream.longMin ≤ v && v < IStream.longMax then .grammar (.int v) else .reject
     else .reject
   | .real =>
     match denoteReal t with
     | some d =>
       match ops.ofDecimal d with
-      | some v => if isReal t then .grammar (.real v) else .lenient (.real v)
+      | some v =>
+        -- (double)FLT_MIN is reserved as the in-band "unset": not representable, to be reported
+        if ops.isRealNull v then .reject else if isReal t then .grammar (.real v) else .lenient (.real v)
       | none => .reject
     | none => .reject
   | .number =>
     match denoteReal t with
     | some d =>
       match ops.ofDecimal d with
-      | some v => if isReal t || isInteger t then .grammar (.real v) else .lenient (.real v)
+      | some v =>
+        if ops.isRealNull v then .reject else if isReal t || isInteger t then .grammar (.real v) else .lenient (.real v)
       | none => .reject
     | none => .reject
   | .string => if isString t then .grammar (.str t) else if isStringLenient t then .lenient (.str t) else .reject
